@@ -9,6 +9,21 @@ sys.path.insert(0, "/verif")
 PY = "/venv/bin/python"
 
 CLAIMS = {
+    "C01": dict(
+        technique="composition of necessary structural conditions: search-loop guard rule, closure rules, provider wiring, conformance rules for the four counting recurrences (patterns over the canonical form, affine normaliser), composition-enumeration re-derivation, statistic-name plumbing",
+        design="DESIGN.md sections 3 (engines N, G, S0/S3, M6, V) and 4 (C01)",
+        text="No static rule decides counts. Decided here is the chain of structural conditions every count depends on, each for all "
+             "inputs: rules are handed back only after has_specification(), from the same database, after every expansion slice, and "
+             "become a specification rooted at the start class; the extracted rule set is closed and rooted at the right label; every "
+             "rule's providers are the term functions of its own children and levels are appended one at a time, the first missing "
+             "one; the union adds every child's terms at exactly n through that child's map; the product adds the product of the "
+             "values of every combination over the complete bounded set of compositions under the position-wise sum of the mapped "
+             "parameters; the complement subtracts the other children's terms at n from the original parent's; the quotient computes "
+             "A (parent at n + shift minus compositions with the counted factor below n), C (other factors at the shift) and A / C, "
+             "with the rule's own terms at the counted position; a count is the entry of level n for the parameters in the class's "
+             "own order. Does NOT decide that together they give the true counts (that also needs the strategies' contracts).",
+        note="Trusted: ast, control model, pattern matcher. Every clause is a necessary condition; the conjunction is not claimed to be sufficient.",
+    ),
     "C02": dict(
         technique="coverage / no-silent-skip rules over the label-level closure built by the extractors and over the specification's rule dictionary; label-kind and pairing rules of engine K",
         design="DESIGN.md sections 3 (engine G) and 4 (C02)",
@@ -166,8 +181,6 @@ CLAIMS = {
 }
 
 NOT_APPLICABLE = {
-    "C01": "Equality of integer sequences produced by recurrences over unbounded families of universes and schedules: "
-           "no sound static argument bounds those values; its structural necessary conditions are claimed under C04/C07/C09/C10.",
 }
 
 
